@@ -76,7 +76,7 @@ pub fn load_corpus() -> Corpus {
     let mut seen: HashSet<String> = HashSet::new();
     for top in ["corelib", "examples", "tests", "crates"] {
         let mut ps = vec![];
-        walk(&Path::new("/repo").join(top), &mut ps);
+        walk(&Path::new(&std::env::var("VERIF_REPO").ok().filter(|s| !s.is_empty()).unwrap_or_else(|| "/repo".to_string())).join(top), &mut ps);
         for p in ps {
             let ps_ = p.to_string_lossy().to_string();
             let in_test_data = ps_.contains("test_data");
